@@ -144,7 +144,8 @@ impl StreamMaps {
                 let mut stream_map = StreamMap::new();
                 stream_map.insert(key, &value, generation)?;
                 let descriptor = StreamMapDescriptor::global(stream_map);
-                self.stream_maps.insert(name.to_string(), vec![descriptor]);
+                // restricted embodiments of still open `new` scopes must survive: the global map goes below them
+                self.stream_maps.entry(name.to_string()).or_default().insert(0, descriptor);
                 Ok(())
             }
         }
